@@ -2,6 +2,7 @@ package nodeprops
 
 import (
 	"fmt"
+	"io"
 	"net"
 	"sync"
 	"sync/atomic"
@@ -285,6 +286,7 @@ func TestC15(t *testing.T) {
 			fake.SetUnordered(false)
 		}
 		c15apiMix(rep, seed, i)
+		c15linkEndsAfterOverflow(rep, seed, i)
 		switch (i + shard) % 6 {
 		case 0:
 			c10custom(aux, seed, 7000+i)
@@ -320,6 +322,97 @@ func TestC15(t *testing.T) {
 	rep.Sample(map[string]interface{}{"api_mix": "4 custom + tcp server, out key, 8 writers x 7 operations, consumer forwards with WriteFrameExcept / FixFrame, Close after 150 ms"})
 	rep.Floor("api_mix_runs", 3)
 	rep.Floor("frames_forwarded_by_consumer", 100)
+}
+
+// c15linkEndsAfterOverflow: a link stalls until the node has discarded items for it (queue overflow) or had writes fail on
+// it, and then ends ON ITS OWN (read error / EOF) - not through Node.Close: whatever the channel's teardown reads (to build
+// its close event) and whatever the node loop wrote while writing to that channel meet here. No heartbeats and no write
+// after the last discarded item, so that nothing orders the loop's last access before the teardown by accident.
+func c15linkEndsAfterOverflow(rep *vh.Report, seed uint64, idx int) {
+	if aborted() {
+		return
+	}
+	r := vh.Sub(seed, fmt.Sprintf("c15-leo-%d", idx))
+	trs := []*fake.Transport{fake.NewTransport("leo0"), fake.NewTransport("leo1")}
+	node := &gomavlib.Node{Endpoints: []gomavlib.EndpointConf{gomavlib.EndpointCustom{ReadWriteCloser: trs[0]}, gomavlib.EndpointCustom{ReadWriteCloser: trs[1]}},
+		Dialect: testDialect, OutVersion: gomavlib.V2, OutSystemID: 53, HeartbeatDisable: true}
+	if err := node.Initialize(); err != nil {
+		return
+	}
+	var mu sync.Mutex
+	chans := map[*fake.Transport]*gomavlib.Channel{}
+	closed := make(chan struct{}, 8)
+	done := make(chan struct{})
+	go func() {
+		defer close(done)
+		for e := range node.Events() {
+			switch ev := e.(type) {
+			case *gomavlib.EventChannelOpen:
+				mu.Lock()
+				for _, tr := range trs {
+					if ev.Channel.Endpoint().Conf().(gomavlib.EndpointCustom).ReadWriteCloser == tr {
+						chans[tr] = ev.Channel
+					}
+				}
+				mu.Unlock()
+			case *gomavlib.EventChannelClose:
+				_ = fmt.Sprint(ev.Error) // the application looks at the cause
+				select {
+				case closed <- struct{}{}:
+				default:
+				}
+			}
+		}
+	}()
+	get := func(tr *fake.Transport) *gomavlib.Channel {
+		for i := 0; i < 400; i++ {
+			mu.Lock()
+			c := chans[tr]
+			mu.Unlock()
+			if c != nil {
+				return c
+			}
+			time.Sleep(500 * time.Microsecond)
+		}
+		return nil
+	}
+	v := trs[idx%2]
+	ch := get(v)
+	if ch != nil {
+		switch idx % 3 {
+		case 0, 1: // overflow
+			v.BlockWrites()
+			for i := 0; i < 70+r.Intn(40); i++ {
+				if i%2 == 0 {
+					_ = node.WriteMessageTo(ch, &MessageVfUid{Uid: uint64(i)})
+				} else {
+					_ = node.WriteMessageAll(&MessageVfUid{Uid: uint64(i)})
+				}
+			}
+			time.Sleep(time.Duration(1+r.Intn(3)) * time.Millisecond)
+		case 2: // failing writes
+			v.FailWriteAt(v.WriteCalls()+1, errWrite, true)
+			for i := 0; i < 20; i++ {
+				_ = node.WriteMessageTo(ch, &MessageVfUid{Uid: uint64(i)})
+			}
+			time.Sleep(time.Millisecond)
+		}
+		if idx%2 == 0 {
+			v.FeedError(errSession)
+		} else {
+			v.FeedError(io.EOF)
+		}
+		time.Sleep(time.Duration(r.Intn(2000)) * time.Microsecond)
+		v.UnblockWrites()
+		v.StopFailing()
+		select {
+		case <-closed:
+			rep.Count("links_ended_on_their_own_after_overflow_or_failed_writes", 1)
+		case <-time.After(2 * time.Second):
+		}
+	}
+	safeClose(rep, node)
+	<-done
 }
 
 func c15long(rep *vh.Report) {
